@@ -30,7 +30,7 @@ Again ==
     /\ results' = Append(results, [root |-> RootId, data |-> ValData(heap, RootId), ids |-> ReachIds(heap, RootId)])
     /\ status' = "running" /\ stack' = <<Frame(<<>>, work)>> /\ calls' = <<>> /\ evlog' = <<>>
     /\ cache' = IF Mut("EvalSharesHeap") THEN cache ELSE <<>>     \* (mutation: the evaluation cache survives the evaluation)
-    /\ taint' = {}
+    /\ taint' = {} /\ over' = <<>>
     /\ UNCHANGED <<work, heap, reqsafe, vars>>
 
 \* the user mutates EVERY container of an earlier result (appends an element / sets a new key)
@@ -43,7 +43,7 @@ Mutate ==
           IN /\ tgt # {}
              /\ heap' = Append([id \in 1..Len(heap) |-> IF id \in tgt THEN [heap[id] EXCEPT !.ch = Append(@, <<SKey("mutated"), new>>)]
                                                         ELSE heap[id]], VAtom(Atom("i", "99")))
-    /\ UNCHANGED <<work, stack, cache, calls, evlog, reqsafe, taint, status, vars, results>>
+    /\ UNCHANGED <<work, stack, cache, calls, evlog, reqsafe, taint, over, status, vars, results>>
 
 MNext == BuildStep \/ StartEval \/ EvalStep \/ Again \/ Mutate
 MSpec == MInit /\ [][MNext]_allvars /\ WF_allvars(EvalStep)
@@ -82,7 +82,9 @@ Inv_C11 == ECheck("Inv_C11", status = "done" =>
 \* C07: the call log with the DATA every call received
 CallsData == [i \in 1..Len(calls) |-> [p |-> calls[i].p, fn |-> calls[i].fn,
                                         args |-> [a \in 1..Len(calls[i].args) |-> <<calls[i].args[a][1], ValData(heap, calls[i].args[a][2])>>]]]
-Inv_C07_Trees == ECheck("Inv_C07_Trees", (status # "idle" /\ C07_InDomain(HistDocs, HistSafes)) => C07_TaintSound(work, HistDocs, HistSafes))
+Inv_C07_Trees == ECheck("Inv_C07_Trees", (status # "idle" /\ C07_InDomain(HistDocs, HistSafes)) =>
+                         /\ C07_TaintSound(work, HistDocs, HistSafes)
+                         /\ \A i \in 1..Len(over) : C07_TaintSound(over[i][2], HistDocs, HistSafes))     \* ... and in what !rec nodes built
 Inv_C07_Eval  == ECheck("Inv_C07_Eval", status # "idle" => C07_EvalHolds(work, status, CallsData, Data, HistDocs, HistSafes))
 C07_Witness   == ETerminal /\ C07_InDomain(HistDocs, HistSafes) /\ C07_TaintedDyn(work, HistDocs, HistSafes) # {}
 
